@@ -40,6 +40,25 @@ VARIANTS = {
     "rename_normal_locals": [(S + "Attribs/NormalAttribT_impl.hh", [(r"\bhalffaces\b", "boundary"), (r"\bvoh_it\b", "oh"), (r"\bhehf_it\b", "hf"), (r"\bhf_it\b", "it"), (r"\b_vh\b", "_v"), (r"\b_fh\b", "_f")]),
                              (S + "Attribs/NormalAttrib.hh", [(r"\bmult\b", "sign")])],
     "rename_swap_bool": [(S + "Core/detail/swap_bool.hh", [(r"\btmp\b", "saved"), (r"\ba\b", "lhs"), (r"\bb\b", "rhs")])],
+    "flip_comparisons": [(S + "Core/TopologyKernel.cc", [
+        (r"if\(halfedge\(\*voh_it\)\.to_vertex\(\) == _vh2\)", "if(_vh2 == halfedge(*voh_it).to_vertex())"),
+        (r"from_vertex_handle\(heh\) == _vh1 && to_vertex_handle\(heh\) == _vh2", "_vh1 == from_vertex_handle(heh) && _vh2 == to_vertex_handle(heh)"),
+        (r"from_vertex_handle\(heh\) == v0 && to_vertex_handle\(heh\) == v1", "v0 == from_vertex_handle(heh) && v1 == to_vertex_handle(heh)"),
+        (r"if \(hes\.size\(\) != _vs\.size\(\)\)", "if (_vs.size() != hes.size())"),
+        (r"if \(hes\[i\] == he0\)", "if (he0 == hes[i])"),
+        (r"if \(halfedge\(heh\)\.from_vertex\(\) != _vs\[i\]\)", "if (_vs[i] != halfedge(heh).from_vertex())"),
+        (r"if\(edge_handle\(heh\) == _eh\)", "if(_eh == edge_handle(heh))"),
+        (r"if \(\*hfv_it == vh\) \{break;\}", "if (vh == *hfv_it) {break;}"),
+        (r"if\(opposite_halfedge_handle\(heh\) == _halfEdgeHandle && hfh != opposite_halfface_handle\(_halfFaceHandle\)\)", "if(_halfEdgeHandle == opposite_halfedge_handle(heh) && opposite_halfface_handle(_halfFaceHandle) != hfh)"),
+        (r"if\(hfh == _halfFaceHandle\) \{", "if(_halfFaceHandle == hfh) {"),
+        (r"if \(to_vertex_handle\(_halfedges\[i\]\) != from_vertex_handle\(_halfedges\[i\+1\]\)\)", "if (from_vertex_handle(_halfedges[i+1]) != to_vertex_handle(_halfedges[i]))"),
+        (r"if \(to_vertex_handle\(_halfedges\.back\(\)\) != from_vertex_handle\(_halfedges\.front\(\)\)\)", "if (from_vertex_handle(_halfedges.front()) != to_vertex_handle(_halfedges.back()))"),
+        (r"if\(incident_cell_per_hf_\[\*hf_it\] == h\)", "if(h == incident_cell_per_hf_[*hf_it])"),
+    ]),
+        (S + "IO/detail/BinaryFileReader.cc", [(r"if \(state_ != ReadState::ReadingChunks\) \{", "if (ReadState::ReadingChunks != state_) {"), (r"file_header_\.n_verts != n_verts_read_", "n_verts_read_ != file_header_.n_verts")]),
+        (S + "IO/detail/BinaryFileReader_impl.hh", [(r"if \(state_ != ReadState::HeaderRead\) \{", "if (ReadState::HeaderRead != state_) {")]),
+        (S + "Core/ResourceManagerT_impl.hh", [(r"prop->name\(\) == _name", "_name == prop->name()"), (r"prop->internal_type_name\(\) == type_name", "type_name == prop->internal_type_name()")]),
+    ],
     "shift_lines": [(S + "Core/TopologyKernel.cc", [(r"\A", "// moved\n// moved\n// moved\n")]), (S + "IO/detail/BinaryFileReader.cc", [(r"\A", "\n\n\n\n\n")]), (S + "Core/TopologyKernel.hh", [(r"#pragma once", "#pragma once\n\n\n")]), (S + "FileManager/FileManagerT_impl.hh", [(r"\A", "\n\n")])],
     "reorder_independent": [(S + "Core/TopologyKernel.hh", [(r"        edges_\.clear\(\);\n        faces_\.clear\(\);", "        faces_.clear();\n        edges_.clear();"), (r"        n_deleted_vertices_ = 0;\n        n_deleted_edges_ = 0;", "        n_deleted_edges_ = 0;\n        n_deleted_vertices_ = 0;")]),
                             (S + "Core/TopologyKernel.cc", [(r"    edges_\.emplace_back\(_fromVertex, _toVertex\);\n    edge_deleted_\.push_back\(false\);", "    edge_deleted_.push_back(false);\n    edges_.emplace_back(_fromVertex, _toVertex);")])],
